@@ -129,6 +129,57 @@ Proof. exact ignored_spec. Qed.
 Example c10_ignored_nonvacuous : kind_of (asc "priv") = KOther /\ dget ex_opts (asc "priv") = None.
 Proof. exact ex_ignored. Qed.
 
+(* ---- whatever its name: a claim other than aud / exp / nbf / iat without a request is
+   ignored, be its name "timestamp", "validate", "check_value", "now", "__class__", "" ... ---- *)
+Theorem c10_unrequested_ignored_any_name : forall now lw opts l1 l2 k v,
+  k <> asc "aud" -> k <> asc "exp" -> k <> asc "nbf" -> k <> asc "iat" -> dget opts k = None ->
+  validate now lw opts (l1 ++ (k, v) :: l2) = validate now lw opts (l1 ++ l2).
+Proof. exact ignored_any_name. Qed.
+Theorem c10_plain_name_iff : forall k,
+  kind_of k = KOther <-> (k <> asc "aud" /\ k <> asc "exp" /\ k <> asc "nbf" /\ k <> asc "iat").
+Proof. exact kind_other_iff. Qed.
+Example c10_plain_names_instance :
+  kind_of (asc "timestamp") = KOther /\ kind_of (asc "validate") = KOther /\ kind_of [] = KOther /\
+  kind_of (asc "check_value") = KOther /\ kind_of (asc "__class__") = KOther /\ kind_of (asc "now") = KOther /\
+  kind_of (asc "aud ") = KOther /\ kind_of (asc "options") = KOther.
+Proof. exact ex_plain_names. Qed.
+(* ... and a requested one is judged by its request only (no dependence on now / leeway, no
+   method of the registry object involved): exactly what the registry without built-in rules does *)
+Theorem c10_other_name_by_request_only : forall now lw opts k v,
+  kind_of k = KOther -> check_claim now lw opts k v = check_claim_base opts k v.
+Proof. exact other_name_by_request_only. Qed.
+
+(* ---- ClaimsRegistry used directly (no built-in rule: table c10_base_validate_methods = []):
+   every claim, aud / exp included, is judged by its request only ---- *)
+Theorem c10_base_no_builtin_rules : c10_base_validate_methods = [].
+Proof. exact base_methods_table. Qed.
+Theorem c10_base_iff : forall opts claims,
+  wf_opts opts = true -> json_claims claims = true ->
+  (validate_base opts claims = Ok tt <-> accepts_base opts claims = true).
+Proof. exact validate_base_iff. Qed.
+Theorem c10_base_verdict : forall opts claims,
+  wf_opts opts = true -> json_claims claims = true ->
+  validate_base opts claims =
+  if cl_essential opts claims
+  then (if on_claims (plain_ok opts) claims then Ok tt else Err (EJose InvalidClaimError))
+  else Err (EJose MissingClaimError).
+Proof. exact validate_base_spec. Qed.
+Example c10_base_instance : wf_opts ex_opts = true /\
+  validate_base ex_opts [(s_exp, PStr (asc "never")); (asc "iss", PStr (asc "https://as")); (s_aud, PStr (asc "web"))] = Ok tt /\
+  validate 0 0 ex_opts [(s_exp, PStr (asc "never")); (asc "iss", PStr (asc "https://as")); (s_aud, PStr (asc "web"))] = Err (EJose InvalidClaimError).
+Proof. exact ex_base. Qed.
+
+(* ---- histories: the registry object (now, leeway, options, essential_keys fixed by
+   __init__) validating any sequence of claims sets gives, for each, the verdict of a
+   fresh registry, and is left unchanged ---- *)
+Theorem c10_validate_stateless : forall now lw opts h,
+  run_history (registry_init now lw opts) h = (map (validate now lw opts) h, registry_init now lw opts).
+Proof. exact history_stateless. Qed.
+Theorem c10_history_independent : forall now lw opts h1 h2 c,
+  nth_error (fst (run_history (registry_init now lw opts) (h1 ++ c :: h2))) (length h1) =
+  Some (validate now lw opts c).
+Proof. exact history_independent. Qed.
+
 (* ---- recorded readings and limits (see C10Spec.v) ---- *)
 (* R1: with strict JSON booleans (true <> 1) the characterisation fails: the code
    accepts {"admin": true} for the request value 1 (Python: True == 1) *)
@@ -172,4 +223,12 @@ Print Assumptions c10_never_expired.
 Print Assumptions c10_never_early.
 Print Assumptions c10_ignored.
 Print Assumptions c10_ignored_spec.
+Print Assumptions c10_unrequested_ignored_any_name.
+Print Assumptions c10_plain_name_iff.
+Print Assumptions c10_other_name_by_request_only.
+Print Assumptions c10_base_no_builtin_rules.
+Print Assumptions c10_base_iff.
+Print Assumptions c10_base_verdict.
+Print Assumptions c10_validate_stateless.
+Print Assumptions c10_history_independent.
 Print Assumptions c10_strict_bool_eq_refuted.
